@@ -468,3 +468,187 @@ def enc_uint(n):
     if n < 65536: return [0x81] + list(n.to_bytes(2, 'little'))
     if n < 2 ** 32: return [0x82] + list(n.to_bytes(4, 'little'))
     return [0x83] + list(n.to_bytes(8, 'little'))
+
+
+# ------------------------------------------------------------------ C14 -----
+def sel_enc(n, b32):
+    return ''.join('%02x' % b for b in enc_uint(n))
+
+
+def parse_actions(out):
+    return [sx.fields(a) for a in out.split(' | ')]
+
+
+def std_map_order(text):
+    """a value as the caller's std::map will iterate it: entries sorted by key"""
+    def fix(x):
+        if isinstance(x, str):
+            return x
+        y = [fix(e) for e in x]
+        if y and y[0] == 'map':
+            key = lambda kv: (0, int(kv[0])) if isinstance(kv[0], str) and kv[0].lstrip('-').isdigit() else (1, sx.show(kv[0]))
+            return ['map'] + sorted(y[1:], key=key)
+        return y
+    p = sx.parse(text)
+    return sx.show(fix(p[0])) if p else text
+
+
+def canon_log(log):
+    if log == '-':
+        return log
+    out = []
+    for e in log.split('+'):
+        i, ps, args = e.split(':', 2)
+        out.append('%s:%s:%s' % (i, ps, args if args == '-' else ';'.join(sx.canon_text(x) for x in args.split(';'))))
+    return '+'.join(out)
+
+
+def canon_action(a):
+    a = dict(a)
+    a['log'] = canon_log(a.get('log', '-'))
+    if a.get('inv', '-').startswith('0:'):
+        a['inv'] = '0:' + sx.canon_text(a['inv'][2:])
+    return a
+
+
+def check_C14(ctx):
+    import rpcgen
+    proofs_or_violation(ctx, ['Properties_C14.v'])
+    pool = get_pool()
+    rng = ctx.rng
+    ifaces, sets = rpcgen.interfaces(pool.types)
+    perr = os.path.join(pool.dir, 'rpcp.err')
+    if os.path.exists(perr):
+        ctx.violate('passthrough-build', 'handlers taking passthrough arguments before the protocol arguments do not compile against /repo (see the replay for the compiler output)',
+                    {'program': os.path.join(pool.dir, 'rpcp.cpp'), 'compiler_output': open(perr).read()[-3000:]})
+    gv = lambda t: std_map_order(nopgen.gen_value(pool.types[t], rng))
+    canon = sx.canon_text
+
+    def binary(pk):
+        return 'rpc' if pk in ('none', 'inst') else 'rpcp'
+    cases = []      # (set index, line, [action meta])
+    ncalls = 4 if ctx.quick else 10
+    nseq = 60 if ctx.quick else 1500
+    for s, (k, pk, bs) in enumerate(sets):
+        if binary(pk) == 'rpcp' and os.path.exists(perr):
+            continue
+        f = ifaces[k]
+        bound = {m: (bi, hats) for bi, (m, kind, hats) in enumerate(bs)}
+        for _ in range(nseq):
+            tag = rng.choice([0, 1, 7, 12345]) if pk in ('tag', 'insttag') else -1
+            acts, meta = [], []
+            n = rng.randint(1, ncalls)
+            for c in range(n):
+                m = rng.randrange(len(f['methods']))
+                nm, sel, rt, ats, alt = f['methods'][m]
+                use_alt = alt is not None and rng.random() < 0.5
+                # values are drawn under the handler's own argument types when they differ from the protocol's
+                # (an array<int,3> handler accepts only three elements), which are valid for the caller's types too
+                tys = alt if use_alt else (bound[m][1] if m in bound else ats)
+                args = [gv(t) for t in tys]
+                ret = gv(rt)
+                acts.append('%s %d %s%s' % ('J' if use_alt else 'I', m, ret, ''.join(' ' + a for a in args)))
+                meta.append({'m': m, 'args': args, 'ret': ret, 'bound': m in bound, 'idx': bound.get(m, (None,))[0]})
+                if m not in bound:
+                    break                      # an unbound call leaves its arguments unread: the connection is out of frame
+            cases.append((s, 'rpc %d %d %d | %s' % (k, s, tag, ' | '.join(acts)), meta, tag))
+    by_bin = {'rpc': [], 'rpcp': []}
+    for c in cases:
+        by_bin[binary(sets[c[0]][1])].append(c)
+    results = []
+    for b, cs in by_bin.items():
+        if not cs:
+            continue
+        ho = run_parallel([os.path.join(pool.dir, b)], [c[1] for c in cs], env=ASAN_ENV, what=b)
+        mo = run_driver(pool, [c[1] for c in cs])
+        results += list(zip(cs, ho, mo))
+    broken = []
+    valid_requests = []
+    for (s, line, meta, tag), o, m in results:
+        k, pk, bs = sets[s]
+        ctx.count('call-sequences:set%d' % s, line)
+        if o.startswith(BADOUT) or o.startswith('UNAVAILABLE'):
+            ctx.violate('memory-error', 'RPC harness crashed or tripped a sanitizer: %s -> %s' % (line[:200], o[:300]), {'case': line, 'output': o})
+            continue
+        acts = parse_actions(o)
+        passr = {'none': '-', 'inst': 'k', 'tag': 't%d' % tag, 'insttag': 'kt%d' % tag}[pk]
+        bad = None
+        for j, (a, mt) in enumerate(zip(acts, meta)):
+            nm = ifaces[k]['methods'][mt['m']][0]
+            if mt['bound']:
+                want_log = '%d:%s:%s' % (mt['idx'], passr, ';'.join(canon(x) for x in mt['args']) or '-')
+                got_log = '+'.join(':'.join(e.split(':', 2)[:2]) + ':' + (';'.join(canon(x) for x in split_top(e.split(':', 2)[2])) if e.split(':', 2)[2] != '-' else '-')
+                                   for e in a['log'].split('+')) if a['log'] != '-' else '-'
+                if a['disp'] != '0':
+                    bad = 'call %d (%s): the dispatcher returned status %s for a bound method and a well-formed request' % (j, nm, a['disp'])
+                elif got_log != want_log:
+                    bad = 'call %d (%s): handlers invoked: %s; expected exactly %s' % (j, nm, a['log'][:200], want_log[:200])
+                elif a['inv'] != '0:' + canon(mt['ret']) and canon(a['inv'][2:]) != canon(mt['ret']):
+                    bad = 'call %d (%s): the handler returned %s but Invoke returned %s' % (j, nm, mt['ret'][:120], a['inv'][:120])
+                elif a['left'] != '0' or a['unread'] != '0' or a['rep'] == '-':
+                    bad = 'call %d (%s): out of frame after a successful call: %s request bytes unconsumed, %s reply bytes unread, reply %s' % (j, nm, a['left'], a['unread'], a['rep'][:40])
+                else:
+                    valid_requests.append((s, tag, mt, a['req']))
+            else:
+                if a['disp'] != '10' or a['log'] != '-' or a['rep'] != '-' or a['inv'].startswith('0:'):
+                    bad = 'call %d (%s, not bound in this dispatch table): status %s (InvalidInterfaceMethod is 10), handlers run: %s, reply bytes: %s, Invoke: %s' % (j, nm, a['disp'], a['log'][:80], a['rep'][:40], a['inv'][:40])
+            if bad:
+                break
+        if bad:
+            ctx.violate('dispatch', '%s; %s' % (bad, line[:300]), {'case': line, 'output': o, 'model': m})
+        elif not m.startswith('DRIVER') and [canon_action(x) for x in parse_actions(m)] != [canon_action(x) for x in acts]:
+            broken.append({'case': line, 'hraw': o, 'mraw': m})
+    report_broken(ctx, broken, 'call-sequences', 'Invoke / dispatch over a byte pipe (status, handler log, request and reply bytes, framing) = model send_request / dispatch / get_return')
+    # ---- many selector values, truncations and corruptions of valid requests
+    rng.shuffle(valid_requests)
+    lines2 = []
+    for s, tag, mt, hx in valid_requests[:150 if ctx.quick else 3000]:
+        k, pk, bs = sets[s]
+        f = ifaces[k]
+        ret = mt['ret']
+        pre = 'rpc %d %d %d | ' % (k, s, tag)
+        for kind, mh in mutations(hx, rng, 10 if ctx.quick else 60):
+            lines2.append((s, pre + 'R %s %s' % (ret, mh), kind))
+        # the same arguments under other selectors: neighbours, 32/64-bit boundaries, random
+        selbytes = None
+        for cand in (1, 2, 3, 5, 9):
+            if hx[:2] in ('80', '81', '82', '83') and False:
+                pass
+        body = hx[{'83': 18, '82': 10, '81': 6, '80': 4}.get(hx[:2], 2):]
+        for v in [0, 1, 6, 7, 8, 127, 128, 255, 65535, 2 ** 32 - 16, 2 ** 32 - 1, 2 ** 32, 2 ** 64 - 16, 2 ** 64 - 1, rng.getrandbits(64), rng.getrandbits(32)]:
+            lines2.append((s, pre + 'R %s %s%s' % (ret, sel_enc(v, f['sel32']), body), 'selector'))
+    res2 = []
+    for b in ('rpc', 'rpcp'):
+        cs = [c for c in lines2 if binary(sets[c[0]][1]) == b]
+        if cs:
+            ho = run_parallel([os.path.join(pool.dir, b)], [c[1] for c in cs], env=ASAN_ENV, what=b)
+            mo = run_driver(pool, [c[1] for c in cs])
+            res2 += list(zip(cs, ho, mo))
+    broken = []
+    for (s, line, kind), o, m in res2:
+        ctx.count('raw-requests:set%d' % s, line)
+        if o.startswith(BADOUT):
+            ctx.violate('memory-error', 'RPC harness crashed or tripped a sanitizer: %s -> %s' % (line[:200], o[:300]), {'case': line, 'output': o})
+            continue
+        a = parse_actions(o)[-1]
+        nlog = 0 if a['log'] == '-' else len(a['log'].split('+'))
+        if kind == 'trunc' and (a['disp'] == '0' or a['log'] != '-' or a['rep'] != '-'):
+            ctx.violate('dispatch', 'a truncated request must be rejected with the decode error, run no handler and send nothing back: status %s, log=%s, rep=%s; %s' % (a['disp'], a['log'][:100], a['rep'][:40], line[:300]),
+                        {'case': line, 'output': o, 'model': m})
+        elif a['disp'] != '0' and (a['log'] != '-' or a['rep'] != '-'):
+            ctx.violate('dispatch', 'a rejected request (status %s) ran a handler or produced reply bytes: log=%s rep=%s; %s' % (a['disp'], a['log'][:100], a['rep'][:40], line[:300]), {'case': line, 'output': o, 'model': m})
+        elif a['disp'] == '0' and (nlog != 1 or a['rep'] == '-'):
+            ctx.violate('dispatch', 'an accepted request ran %d handlers and replied %s; %s' % (nlog, a['rep'][:40], line[:300]), {'case': line, 'output': o, 'model': m})
+        elif not m.startswith('DRIVER'):
+            fm = canon_action(parse_actions(m)[-1])
+            a = canon_action(a)
+            keys = ['disp', 'log', 'rep'] + (['left'] if a['disp'] == '0' else [])
+            if any(fm.get(x) != a.get(x) for x in keys):
+                broken.append({'case': line, 'hraw': o, 'mraw': m})
+    report_broken(ctx, broken, 'raw-requests', 'dispatch of arbitrary request bytes (status, handler log, reply bytes) = model dispatch')
+    return finish_with_proofs(ctx, {'interfaces': len(ifaces), 'dispatch_tables': len(sets), 'call_sequences': len(cases), 'raw_requests': len(lines2)})
+
+
+def split_top(s):
+    """splits 'a;b;c' at top level (no nesting-aware need: values never contain ';')"""
+    return s.split(';')
